@@ -37,7 +37,21 @@ package server
 //   - age, UUID, local identifier, best/validation flags: state of the RIB.
 // Attributes whose API conversion alone is lossy (C18_attr territory, see
 // pkg/apiutil KnownIssues) are left out of the generated sets: this check is
-// about what the server adds on top of the conversion.
+// about what the server adds on top of the conversion.  Routes whose RIB key
+// does not include every NLRI field (labelled, VPN, EVPN, VPLS, MUP) are
+// limited to one per family and case: a second one would legitimately replace
+// the first.
+//
+// C18_peer (the "neighbour configuration" clause of the property): a generated
+// api.Peer goes through newNeighborFromAPIStruct (what AddPeer/UpdatePeer do)
+// and back through oc.NewPeerFromConfigStruct (what ListPeer does); every
+// configuration field that was set must come back with the same value.
+//
+// Recipes are longer than the usual 40..240 numbers for C18_policy and C18_path:
+// one case builds up to 7 defined sets + 4 statements, or up to 4 routes.
+// Every case starts and stops its own BgpServer (about 12-25 ms).
+// VERIF_C18_SURVEY / VERIF_C18_UNMASK work as in pkg/apiutil/c18_test.go;
+// TestVerifC18ServerProbes runs the minimal reproducer of every known issue.
 
 import (
 	"bytes"
